@@ -102,6 +102,25 @@ CLAIMS = {
         "NarseseValue lift), is_X / try_into_X / from_X / try_into_task_compatible are decoded into variant tables; a dominator rule shows both formatters "
         "always write both budget brackets and the task formatter always formats the budget. kind(parse(format(v))) for all v is not decided.",
    note="Trusted: rustc HIR/MIR, std Option/Vec::is_empty semantics, the rule layer."),
+ "C04": dict(
+   level="other", design="DESIGN.md §4 C04",
+   technique="static analysis: exhaustive MIR panic-edge inventory over the call graph + reviewed guard-signature table re-extracted each run + structural dominator rules + loop/recursion progress analysis",
+   text="Every panic edge (MIR Assert, panic call, may-panic std/dep API) in the ~125 functions reachable from the 14 enum-parser entry points is "
+        "inventoried; each must match a reviewed table entry by (function, kind, ordinal), with identical operand expressions and all required dominating "
+        "guards still forced (no redefinition of loop-carried operands in between). Structural rules back the table: cursor reads only under can_consume "
+        "with no cursor move in between, len_env coupled to env, form_* unwraps under the caller's Some tests, range-checked constructor arguments, image "
+        "index 0. Every loop and recursion cycle has a progress witness on all paths and progress keywords are non-empty in all tables. Bounds arguments "
+        "resting on reviewed invariants are marked as such; stack depth is not decided.",
+   note="Trusted: rustc MIR, the reviewed table (panic_sites.json), axioms (usize + cannot overflow, finite iterators, unlisted external callees total)."),
+ "C05": dict(
+   level="other", design="DESIGN.md §4 C05",
+   technique="static analysis: MIR panic-edge inventory + reviewed guard-signature table + fold discipline + table disjointness + loop/recursion progress (shrinking-slice rule)",
+   text="Same inventory/table discipline for the ~170 functions reachable from the lexical parser entries and all TryFoldInto impls (54 sites, 45 of them "
+        "slice borders of the segmenters): operands and required guards are re-extracted and compared each run; the fold module itself must contain no panic "
+        "edge (everything via ?/ok_or, images only through to_image_*_with_placeholder, numbers through try_from_floats with validated arguments); table-level "
+        "disjointness keeps prefix and suffix borders ordered; every loop steps a counter/iterator or advances by a non-empty keyword or by a returned term "
+        "length (reviewed exception), every recursive segment call gets a strictly shorter slice.",
+   note="Trusted: rustc MIR, the reviewed table and its invariants ('a returned border never exceeds the slice it was computed on'), nar_dev_utils matching semantics, axioms as C04."),
 }
 
 NOT_YET = "check not built yet (DESIGN.md §8 build order); will be claimed once its rules run"
